@@ -332,7 +332,7 @@ R_AOLE = [f"{_RAE}.owner_fromBytes", f"{_RAE}.topic_fromBytes", f"{_RAE}.writer_
 _RAO = "Panacea.Refine.AolOrder"
 R_AOLO = [f"{_RAG}.initGenesis_order_independent", "Panacea.C09.importTable_perm", "Panacea.C09.aolImport_perm", "Panacea.Map.ext_sorted", "Panacea.Map.foldl_set_perm"]
 _RAR = "Panacea.Refine.AolReach"
-R_AOLR = [f"{_RAE}.reachable_genesis_roundtrip", "Panacea.Aol.keysInv_step", "Panacea.Aol.keysInv_run", "Panacea.Aol.be64_mod"]
+R_AOLR = [f"{_RAE}.reachable_genesis_roundtrip", f"{_RAE}.expList_congr", f"{_RAE}.genesis_roundtrip_reexport", f"{_RAE}.reachable_genesis_roundtrip_reexport", "Panacea.Aol.keysInv_step", "Panacea.Aol.keysInv_run", "Panacea.Aol.be64_mod"]
 _RDX = "Panacea.Refine.DidReexport"
 R_DIDX = [f"{_RK}.imported_store", f"{_RK}.exportEntries_imported", f"{_RK}.genesis_roundtrip_reexport", f"{_RK}.reachable_genesis_roundtrip_reexport"]
 _RDR = "Panacea.Refine.DidReach"
